@@ -320,7 +320,14 @@ def _main_shard(sh: Dict[str, Any]) -> Dict[str, Any]:
 
     progs_ = sh["programs"]
     stubs.install_guard()
-    model = stubs.InspectModel()
+    from vlib import repoenv as _repoenv
+
+    noslice: Optional[str] = None
+    try:
+        model = stubs.InspectModel()
+    except _repoenv.CannotEncode as ex:
+        model = None        # see harness/c02.py: only the direct leg on real suspensions can run
+        noslice = f"symbolic leg not built: {ex}"
     _lowlevel._check_trickery_available()          # real self-test on real frames first
     saved = _lowlevel.inspect_frame
     cex: List[Dict[str, Any]] = []
@@ -339,6 +346,17 @@ def _main_shard(sh: Dict[str, Any]) -> Dict[str, Any]:
                 extra["unsupported_code_objects"] += 1
                 continue
             obs = dyn.observe_all(src, desc["kind"])
+            # direct leg, no model involved: the REAL analysis (ctypes half included) on every REAL suspension
+            for ob in obs:
+                if "driver_error" in ob:
+                    continue
+                ob["async_of"] = {mid: a for (mid, _, _, a) in P["wmap"].values()}
+                dev = real_deviation(ob)
+                if dev and sum(1 for c in cex if c.get("real_suspension")) < 2:
+                    cex.append({"desc": desc, "src": src, "lasti": ob["lasti"], "why": "real suspension: " + dev, "f2": False, "real_suspension": True})
+            if model is None:
+                extra["real_suspensions_validated"] += len(obs)
+                continue
             why = validate_model(desc, src, P, obs)
             if why:
                 crash = f"model validation failed for {desc}: {why}\n{src}"
@@ -377,6 +395,15 @@ def _main_shard(sh: Dict[str, Any]) -> Dict[str, Any]:
                         cex.append({"desc": desc, "src": src, "lasti": r["lasti"], "why": r["why"], "f2": r["f2"]})
     finally:
         _lowlevel.inspect_frame = saved
+    direct = [c for c in cex if c.get("real_suspension")]
+    if noslice:
+        crash = crash or noslice
+        if not direct:
+            return {"shard": sh["name"], "crash": noslice}
+    if crash and direct:
+        return {"paths": tot["paths"], "queries": tot["queries"], "solver_time": tot["solver_time"], "exhausted": False,
+                "inconclusive": ["stopped at a real-suspension violation: " + crash[:160]], "shard": sh["name"], "cex": direct, "samples": samples,
+                "extra": extra, "reached": extra["observation_points"]}
     if crash:
         return {"shard": sh["name"], "crash": crash}
     return {"paths": tot["paths"], "queries": tot["queries"], "solver_time": tot["solver_time"], "exhausted": exhausted,
